@@ -1,4 +1,5 @@
 import MobiusModel.Session
+import MobiusModel.SessionTransfer
 import MobiusModel.Generated.Consts
 /-!
   C02 — Segmentation-independent parsing of client byte streams.
@@ -87,6 +88,29 @@ theorem wellformed_session_dispatches_exactly {W O : Type} (env : Env W O) (w : 
   rw [Session.run_eq_runStream, hchunks]
   exact Session.runStream_wellformed env w hs login ts hhs hv hb hl hts hauth
 
+/-- (6) Everything after the preamble of a transfer connection is read with exact-size reads
+    (`io.ReadFull`, `binary.Read`, `io.CopyN`).  ANY parser of that kind — a decision tree of "read
+    exactly n bytes, continue depending on them" — computes the same value and leaves the same
+    bytes unread whatever the chunking of the stream. -/
+theorem exact_read_parsers_segmentation_independent {α : Type} (p : Prog α) (c1 c2 : List Bytes)
+    (h : c1.flatten = c2.flatten) :
+    (Prog.run p c1).1 = (Prog.run p c2).1 ∧ (Prog.run p c1).2.flatten = (Prog.run p c2).2.flatten := by
+  obtain ⟨a1, a2⟩ := Prog.run_eq_runFlat p c1
+  obtain ⟨b1, b2⟩ := Prog.run_eq_runFlat p c2
+  rw [a1, a2, b1, b2, h]
+  exact ⟨rfl, rfl⟩
+
+/-- (6') Instance: the folder-upload item loop (item header, 4-byte transfer size, flattened file
+    with 2 or 3 forks per item; send / resume / skip decided by the server's file system = `actions`)
+    — the items received, their fork contents and the bytes left over do not depend on the chunking,
+    in particular not on where a read boundary falls relative to the end of a file item or inside
+    the 4-byte size that follows a resume answer. -/
+theorem folder_upload_segmentation_independent (n : Nat) (actions : List Nat) (c1 c2 : List Bytes)
+    (h : c1.flatten = c2.flatten) :
+    (FolderUpload.run n actions c1).1 = (FolderUpload.run n actions c2).1 ∧
+    (FolderUpload.run n actions c1).2.flatten = (FolderUpload.run n actions c2).2.flatten :=
+  FolderUpload.run_segmentation_independent n actions c1 c2 h
+
 /-! Obligations over the constants regenerated from /repo's source on every run: the sizes the
     model reads (12-byte handshake, 20-byte transaction header before the size-counted part). -/
 
@@ -110,5 +134,9 @@ example : (readFull [[1, 2, 3, 4, 5], [6, 7, 8, 9, 10, 11, 12, 13]] 12).1 = (rea
   decide
 example : TransferSession.preamble [[0x48, 0x54, 0x58], [0x46, 0, 0, 0, 9, 0, 0, 0, 5, 0, 0, 0], [0, 1, 2]] = (.ok (9, 5), [[1, 2]]) := by
   decide
+
+-- a two-read parser on a 3-byte stream cut 1+2 and 2+1
+example : (Prog.run (Prog.read 2 fun a => Prog.read 1 fun b => Prog.done (a, b)) [[1], [2, 3]]).1 = ([1, 2], [3]) ∧
+    (Prog.run (Prog.read 2 fun a => Prog.read 1 fun b => Prog.done (a, b)) [[1, 2], [3]]).1 = ([1, 2], [3]) := by decide
 
 end Mobius.C02
